@@ -6,6 +6,8 @@ func init() {
 		"a name that ends with 'total' or the unit word without a delimiter or in another letter case may or may not count as carrying the suffix (both namings accepted); a counter literally named 'total' is only required to be legal and to end with _total",
 		"registries Prometheus rejects by design (instruments sharing a family, inconsistent key sets, attribute sets that alias after the collision merge) are only checked for 'no panic' and legal names",
 		"exponential histogram points: scale > 8 is expected at schema 8 with neighbours merged; scale < -4 has no Prometheus schema and nothing is asserted for such a point",
+		"which sampled measurement becomes the exemplar is the SDK reservoir's choice: asserted is that an exposed exemplar is the faithful record of one sampled measurement of that series (right bucket); whether an exemplar is exposed at all is not asserted (the statement does not mention exemplars beyond faithful series)",
+		"an exporter that is not (yet) registered with a MeterProvider may expose a label-less target_info; anything else it exposes is a violation",
 		"concurrent scrapes are checked for crash/race freedom, legal names, cumulative shape and monotone counters; exact values only at quiescence; schedules are sampled, not enumerated",
 	))
 }
